@@ -83,10 +83,13 @@ def wrappings(t, tier):
     for p in pos:
         yield replace(t, p, lambda x: ("fwd", x))
         yield replace(t, p, lambda x: ("fwd", x, "kw"))     # hooks written with **kwargs only
+        yield replace(t, p, lambda x: ("fwd", x, "attr"))   # target kept outside props
     pairs = [(p, q) for p, q in itertools.combinations(pos, 2)
              if p[:len(q)] != q and q[:len(p)] != p]          # disjoint positions
     for p, q in pairs[:MAXPAIRS[tier]]:
         yield replace(replace(t, p, lambda x: ("fwd", x)), q, lambda x: ("fwd", x))
+        # two instances of one class with EQUAL props and different targets side by side
+        yield replace(replace(t, p, lambda x: ("fwd", x, "attr")), q, lambda x: ("fwd", x, "attr"))
     # nested wrap: a wrapped node inside a wrapped node
     nest = [(p, q) for p, q in itertools.permutations(pos, 2) if q[:len(p)] == p and p != q]
     for p, q in nest[:MAXPAIRS[tier] // 3]:
